@@ -381,8 +381,10 @@ pub fn execute(case: &Value, _scratch: &str) -> Outcome {
             _ => out.violate(Verdict::new("C04", "C04:generation-fails", &[("source", facet_src), ("generation", "twice")], "a save of the loaded workbook does not decode".to_string())),
         }
     }
-    // a single-cell edit changes nothing else
-    if let Some(e) = edit {
+    // a single-cell edit changes nothing else ("for every single-cell edit": several are tried, each on its own)
+    let mut edits: Vec<Edit> = edit.into_iter().collect();
+    edits.extend(serde_json::from_value::<Vec<Edit>>(case["more_edits"].clone()).unwrap_or_default());
+    for e in edits {
         let seed = seeds.first().cloned().unwrap_or(1);
         match generation(input.clone(), flavours.first().cloned().unwrap_or(false), seed, chunk, Some(e.clone())) {
             Ok(e1) => {
@@ -463,6 +465,23 @@ pub fn cases(run_seed: u64, tier: &str, _scratch: &str) -> Vec<Value> {
         };
         let e = Edit { kind: kind.to_string(), v, sheet: wl.usize(4), pick: ["fresh", "existing", "formula", "formula"][sw.usize(4)].to_string(), nth: wl.usize(10_000), cell };
         c["edit"] = serde_json::to_value(&e).unwrap();
+        // further edits on existing cells, each applied to a fresh load of the same file (cheap files only)
+        let cheap = c["source"]["kind"] == "generated" || c11::file_cost(c["source"]["file"].as_str().unwrap_or("")) == 0;
+        if cheap {
+            let n_more = if tier == "thorough" { 8 } else { 4 };
+            let more: Vec<Edit> = (0..n_more)
+                .map(|k| {
+                    let kind = ["num", "text", "num", "formula"][k % 4];
+                    let v = match kind {
+                        "num" => format!("{}", 1000 + wl.below(1000)),
+                        "formula" => format!("{}+{}", 1 + wl.below(9), 1 + wl.below(9)),
+                        _ => format!("edit{}:{}", k, world::gen_text(&mut wl, sw.usize(4), 2)),
+                    };
+                    Edit { kind: kind.to_string(), v, sheet: wl.usize(4), pick: "existing".to_string(), nth: wl.usize(10_000), cell: "A1".to_string() }
+                })
+                .collect();
+            c["more_edits"] = serde_json::to_value(&more).unwrap();
+        }
     }
     vec![c]
 }
